@@ -232,7 +232,8 @@ class Driver:
                 acked = [b["ID"] for b in m["Packets"]] + acked
             resent = bool(m.send_flags & im["PacketFlags"].RESENT)
             tx.append({"id": m.packet_id, "rel": bool(m.reliable), "resent": resent, "acked": acked,
-                       "peer": tuple(pkt.dst_addr) == PEER, "name": m.name})
+                       "peer": tuple(pkt.dst_addr) == PEER, "name": m.name,
+                       "pingid": m["PingID"]["PingID"] if m.name == "CompletePingCheck" else None})
             if not resent:
                 self.issued.append(m.packet_id)
             for a in acked:
@@ -278,6 +279,25 @@ class Driver:
         if st != "ok":
             ev["raised"] = r
         return await self._observe(ev, pid, bool(rel), with_dl=True)
+
+    async def ping(self, oldest):
+        """The peer's StartPingCheck(OldestUnacked=oldest), through the real datagram path; the region-level handler that
+        answers it is a coroutine, so the loop is pumped until its task has run."""
+        Message, Block = self.im["Message"], self.im["Block"]
+        self.n_pings = getattr(self, "n_pings", 0) + 1
+        pid = 600000 + self.n_pings          # the ping's own (unreliable) packet ID, apart from the data packets' IDs
+        m = Message("StartPingCheck", Block("PingID", PingID=self.n_pings % 256, OldestUnacked=oldest))
+        m.packet_id = pid
+        st, r = common.impl_call(self.proto.datagram_received, self.im["ser"].serialize(m), PEER)
+        ev = {"ev": "Ping", "oldest": oldest}
+        if st != "ok":
+            ev["raised"] = r
+        for _ in range(3):
+            await asyncio.sleep(0)
+        ev = await self._observe(ev, pid, False, with_dl=True)
+        ev["pong_ok"] = len(ev["tx"]) == 1 and ev["tx"][0]["name"] == "CompletePingCheck" and \
+            ev["tx"][0]["pingid"] == self.n_pings % 256
+        return ev
 
     async def stray(self, acks):
         data = self._datagram(4242, True, acks, "app")
@@ -378,6 +398,8 @@ async def _do(drv: Driver, act, model_ids):
         return await drv.tick(act["d"])
     if n == "Subscribe":
         return await drv.subscribe(act["l"], act["k"])
+    if n == "Ping":
+        return await drv.ping(act["oldest"])
     if n == "GoAlive":
         return await drv.go_alive()
     if n == "Disconnect":
@@ -401,7 +423,17 @@ def _compare(drv: Driver, act, obs, ev):
     n = act["n"]
     if any(not t["peer"] for t in tx):
         bad.append(("datagrams go to the peer", None, tx))
-    if n in ("Recv", "Stray"):
+    if n == "Ping":
+        exp_tx = sorted((real(t["id"]), t["rel"], t["resent"]) for t in out["tx"])
+        got_tx = sorted((t["id"], t["rel"], t["resent"]) for t in tx)
+        if exp_tx != got_tx or not ev.get("pong_ok"):
+            bad.append(("ping answered with one CompletePingCheck", exp_tx, [[t["name"], t["id"], t["pingid"]] for t in tx]))
+        for h, exp in (("sess", 0), ("reg", 0), ("sessAll", 1), ("regAll", 1)):
+            if ev["dl"][h] != exp:
+                bad.append((("dup-dispatch/" if ev["dl"][h] > exp else "missing-dispatch/") + h, exp, ev["dl"][h]))
+        if ev["dl"]["other"] or any(ev["dl"]["dyn"][lvl] != out["calls"][lvl] for lvl in ("sess", "reg")):
+            bad.append(("subscriber called for another packet", 0, ev["dl"]))
+    elif n in ("Recv", "Stray"):
         acked = [a for t in tx for a in t["acked"]]
         if acked != out["acks"] or len(tx) != len(out["acks"]):
             clause = "stray: nothing emitted" if n == "Stray" else \
@@ -508,7 +540,7 @@ def _strip(evs):
     """Trace records: only what ClientCircuit_Trace reads."""
     res = []
     for ev in evs:
-        r = {k: v for k, v in ev.items() if k in ("ev", "p", "rel", "acks", "d", "fut", "match", "level", "kind", "how")}
+        r = {k: v for k, v in ev.items() if k in ("ev", "p", "rel", "acks", "d", "fut", "match", "level", "kind", "how", "oldest", "pong_ok")}
         r["tx"] = [{"id": t["id"], "rel": t["rel"], "resent": t["resent"], "acked": t["acked"], "peer": t["peer"]}
                    for t in ev["tx"]]
         if "dl" in ev:
@@ -526,12 +558,14 @@ def _mc_cfg(consts, spec, check=True, forms=False):
     c.setdefault("SubKinds", "{}")
     c.setdefault("StartStates", '{"pending"}')     # as HippoClientSession.open_circuit creates it
     c.setdefault("Lifecycle", "FALSE")
+    c.setdefault("MaxPings", 0)
+    c.setdefault("Oldest", "{}")
     txt += "CONSTANTS " + " ".join("%s = %s" % kv for kv in c.items()) + "\n"
     if forms:
         txt += 'CONSTANTS Forms = {"app", "pa", "mix"}\n'
     txt += "CONSTRAINT Bound\nVIEW View\n"
     if check:
-        for i in ("TypeOK", "AckEveryReceipt", "DispatchAtMostOnce", "FirstCopyDispatched", "AckedWhilePending", "MemoryShape", "UnreliableAlwaysDelivered", "DispatchReachesAll",
+        for i in ("TypeOK", "AckEveryReceipt", "DispatchAtMostOnce", "FirstCopyDispatched", "ProtectedOnce", "AckedWhilePending", "MemoryShape", "UnreliableAlwaysDelivered", "DispatchReachesAll",
                   "Partition", "DoneIffAcked", "FailedIffSpent", "IdsIncreasing", "LastIsLast"):
             txt += "INVARIANT %s\n" % i
         txt += "PROPERTY Final\nPROPERTY OneShotOnce\nPROPERTY RememberedNeverAgain\n"
@@ -625,6 +659,7 @@ async def _walk(client, rng, length, every_ms):
     p_dup = rng.choice([0.2, 0.5, 0.8])
     p_tick = rng.choice([0.1, 0.3, 0.6])
     p_sub = rng.choice([0.0, 0.05, 0.12])
+    p_ping = rng.choice([0.0, 0.06, 0.15])
     ticks = [1, 500, every_ms // 2, every_ms - 1, every_ms, every_ms + 1, every_ms * 3]
 
     def pick_acks():
@@ -664,6 +699,17 @@ async def _walk(client, rng, length, every_ms):
                     pid = next_pid
                     pool.append(pid)
                 ev = await drv.recv(pid, rel, pick_acks(), "app")
+        elif rng.random() < p_ping:
+            # what a truthful peer says: one of its recent reliable packets (our ack may be lost) or its next unsent ID;
+            # sometimes anything
+            r = rng.random()
+            if r < 0.6 and rel_pids:
+                oldest = rng.choice(rel_pids[-4:])
+            elif r < 0.85:
+                oldest = max(rel_pids + unrel_pids + [next_pid]) + 1
+            else:
+                oldest = rng.randrange(0, next_pid + 10)
+            ev = await drv.ping(oldest)
         elif c < p_tick:
             ev = await drv.tick(rng.choice(ticks))
         elif c < p_tick + 0.12:
@@ -815,6 +861,9 @@ def run(chk: Check):
         "every configuration drives the circuit the way HippoClientSession.open_circuit() creates it (is_alive = False, no "
         "handshake); the lifecycle configuration and the walks also start from a bare Circuit (is_alive = True), complete the "
         "handshake (is_alive = True as connect() does) and call Circuit.disconnect()",
+        "StartPingCheck(OldestUnacked): IDs below the highest announcement are released -- a later duplicate of one contradicts "
+        "the peer and its dispatch is left open (not judged); the announced ID itself and newer ones stay protected; the "
+        "CompletePingCheck answer (one unreliable datagram echoing the PingID) is observed; pings use packet IDs of their own",
         "a disconnected circuit is outside the property; ASSUMED as the unchanged code behaves: pending sends orphaned (futures "
         "stay pending), packet IDs start over, reception (ack, de-duplication, dispatch) continues; no send / clock step / "
         "subscription is driven on it",
@@ -844,6 +893,10 @@ def run(chk: Check):
     traces += _b1(chk, dict(base, RelPids="{1}", UnrelPids="{2}", MaxRcv=2, MaxSends=0, MaxUnrel=0, MaxAcks=0, Ticks="{}",
                             MaxSubs=2, SubKinds='{"perm", "once", "retTrue", "waitfor"}', Depth=5 if quick else 6),
                   "subscribers", 151 if quick else 211, max_pairs=12000 if quick else 0)
+    # the peer's StartPingCheck announcing its oldest unacknowledged packet (truthful or not), answered by the real region
+    # handler; duplicates of the announced packet itself and of newer ones must still be suppressed
+    traces += _b1(chk, dict(base, RelPids="{1,2,3}", UnrelPids="{4}", MaxRcv=2, MaxSends=1, MaxUnrel=0, MaxAcks=1, Ticks="{}",
+                            MaxPings=2, Oldest="{0,1,2,3,4}", Depth=6 if quick else 7), "ping", 53, max_pairs=8000 if quick else 0)
     # life of the circuit: created-not-yet-alive (as the endpoint makes it) or bare-alive, handshake completes, disconnect
     traces += _b1(chk, dict(base, RelPids="{1}", UnrelPids="{2}", MaxRcv=2, MaxSends=1 if quick else 2, MaxUnrel=1, MaxAcks=1,
                             Ticks="{%d}" % every, StartStates='{"pending", "alive"}', Lifecycle="TRUE", Depth=7 if quick else 8),
